@@ -932,7 +932,24 @@ func c03Crash(c *Ctx, idx int) CaseResult {
 	g.Tols = []int{-1, 0, 0, 1, 2}
 	g.Concs = []int{0, 1, 2, 3}
 	g.NoBlockDelays = true
+	// every other crash plan: blocks fail through their own checks (pre, post, deferred) rather than through their
+	// sequences, with at least one block after the first — the durable states "check group Failed, block still
+	// Running" exist only there ("one of its checks failed ... after a Failed block no later block invokes anything")
+	failingChecks := (idx/20)%2 == 1
+	if failingChecks {
+		g.PPre, g.PPost = 0, 0
+		g.PBPre, g.PBPost, g.PBDeferred = 0.6, 0.6, 0.4
+		g.PFailPre, g.PFailPost, g.PFailDeferred = 0.4, 0.5, 0.3
+		g.PFailSeqAction = 0.15
+		g.MaxSeqs = 2
+	}
 	ps := g.Plan(r, "p0")
+	for try := 0; failingChecks && len(ps.Blocks) < 2 && try < 20; try++ {
+		ps = g.Plan(r, "p0")
+	}
+	if failingChecks {
+		res.Counters["crash_plans_failing_block_checks"]++
+	}
 	var first any
 	cp := exploreCrashes(&ps, r, 1<<30, &res, func(sk *spec.PlanView, rec *crash.Recovery, t *oracle.Trace, second bool, k, j int) {
 		if rec == nil || !rec.Returned || rec.Final == nil {
